@@ -17,6 +17,13 @@ def pairs():
                          # the caller's region is modelled by a 1-byte object (addresses only): pointer differences inside the real region
                          # would be flagged as leaving that object, so pointer checks are off for this pair (bounds/overflow/shift checks stay on)
                          cbmc_flags=["--no-pointer-check"]),
+      "clear_abandoned": P("clear_abandoned", "_mi_arena_segment_clear_abandoned", ["_mi_bitmap_unclaim/c_bitmap_unclaim_ab", "_mi_thread_id"], config="SCALED", entry="h_clear_abandoned"),
+      "mark_abandoned": P("mark_abandoned", "_mi_arena_segment_mark_abandoned", ["_mi_bitmap_claim/c_bitmap_claim_ab"], config="SCALED", entry="h_mark_abandoned", solver="cadical"),
+      "clear_abandoned_at": P("clear_abandoned_at", "mi_arena_segment_clear_abandoned_at", ["_mi_bitmap_unclaim/c_bitmap_unclaim_ab", "_mi_bitmap_claim/c_bitmap_claim_ab", "mi_arena_block_start/c_arena_block_start_use"], config="SCALED", entry="h_clear_abandoned_at"),
+      "os_clear_abandoned": P("os_clear_abandoned", "mi_arena_segment_os_clear_abandoned", ["_mi_thread_id"], config="SCALED", entry="h_os_clear_abandoned"),
+      "abandoned_visit": P("abandoned_visit", "mi_abandoned_visit_blocks", OS + ["_mi_arena_field_cursor_init/c_cursor_init_rec", "_mi_arena_field_cursor_done/c_cursor_done_rec",
+                         "_mi_arena_segment_clear_abandoned_next/c_clear_abandoned_next_rec", "_mi_arena_segment_mark_abandoned/c_mark_abandoned_rec", "_mi_segment_visit_blocks", "_mi_subproc_from_id"],
+                         config="SCALED", entry="h_abandoned_visit", label="B", K=2, unwindset={"mi_abandoned_visit_blocks.0": 4}),
       "id_suitable": P("id_suitable", "mi_arena_id_is_suitable", []),
       "memid_suitable": P("memid_suitable", "_mi_arena_memid_is_suitable", []),
     }
